@@ -97,8 +97,9 @@ def r_cpu_helpers(e, R):
     af = e.prog.funcs[helper_roles(e)["AFF"]]
     p = af.params[0]
     rets = [n for n in func_nodes(af) if isinstance(n, ast.Return)]
-    allowed = {"len(os.sched_getaffinity(0))", "len(p.cpu_affinity())", p}
-    got = {norm(r.value) for r in rets}
+    import re as _re
+    allowed = {"len(os.sched_getaffinity(0))", "len(<psutil process>.cpu_affinity())", p}
+    got = {_re.sub(r"^len\(\w+\.cpu_affinity\(\)\)$", "len(<psutil process>.cpu_affinity())", norm(r.value)) for r in rets}
     R.check(got <= allowed and p in got and "len(os.sched_getaffinity(0))" in got, "R-CPU-HELPERS",
             "affinity helper returns len(sched_getaffinity(0)), len(psutil affinity) or the OS count", af.short, str(sorted(got)),
             f"the affinity helper returns {sorted(got - allowed)}", e.loc(af, af.node))
